@@ -577,10 +577,19 @@ pub fn listen<S: ?Sized + AsRef<str>, H: crate::ConnectionHandler + Send + Sync 
             let (r, mut w) = stream.split().unwrap();
             let mut br = BufReader::new(r);
             let mut iface: Option<String> = None;
+            let mut unprocessed: Vec<u8> = Vec::new();
             loop {
-                match handler.handle(&mut br, &mut w, iface.clone()) {
-                    Ok((_, i)) => {
+                let res = {
+                    let mut chained = std::io::Read::chain(unprocessed.as_slice(), &mut br);
+                    handler.handle(&mut chained, &mut w, iface.clone())
+                };
+                match res {
+                    Ok((tail, i)) => {
                         iface = i;
+                        unprocessed = tail;
+                        if iface.is_some() && !unprocessed.is_empty() {
+                            continue;
+                        }
                         match br.fill_buf() {
                             Err(_) => break,
                             Ok([]) => break,
